@@ -64,7 +64,9 @@ ASSUMPTIONS = [
     "link layer: responses in request order; schedules lazy / two per poll / all at request time",
     "host programs apply gates only to live handles (measure/free on a dead handle raise "
     "QubitNotActiveError and change nothing)",
-    "loop bodies / post routines consume the pair (gates, then measure or free)",
+    "loop bodies / post routines: gates, then a destructive measurement or free() (the pair is "
+    "consumed) or an in-place measurement / nothing more (the pair stays alive; with all pairs in one "
+    "virtual qubit only a single pair can be kept)",
     "budget: at most max_qubits live qubits, one fewer on NV hardware configs",
 ]
 
@@ -95,6 +97,15 @@ CORPUS = [
      [{"k": "new"}, {"k": "keepr", "recv": False, "n": 1, "fails": 1, "tries": 2}, {"k": "flush"},
       {"k": "seqr", "recv": True, "n": 3, "fails": 1, "tries": 2, "body": {"g": 0, "c": "meas"}},
       {"k": "flush"}]),
+    (None, {"nv": False, "transp": False, "maxq": 5},  # bodies that keep the pair; F49 witness (fixed)
+     [{"k": "seq", "recv": False, "n": 1, "body": {"g": 1, "c": "none"}}, {"k": "flush"}, {"k": "new"},
+      {"k": "postk", "recv": True, "n": 2, "body": {"g": 1, "c": "inplace"}},
+      {"k": "ctx", "recv": False, "n": 1, "sequential": False, "body": {"g": 0, "c": "none"}},
+      {"k": "flush"}, {"k": "gate2", "h": 0, "h2": 3, "g": 0}, {"k": "flush"}, {"k": "close"}]),
+    (None, {"nv": True, "transp": False, "maxq": 5},  # F50 witness (fixed): NV, post routine, two pairs
+     [{"k": "postk", "recv": False, "n": 2, "body": {"g": 0, "c": "meas"}}, {"k": "flush"},
+      {"k": "ctx", "recv": True, "n": 1, "sequential": False, "body": {"g": 1, "c": "inplace"}},
+      {"k": "new"}, {"k": "flush"}]),
     ("F28", {"nv": True, "transp": False, "maxq": 5},
      [{"k": "new"}, {"k": "keep", "recv": True, "n": 2}, {"k": "flush"}]),
     (None, {"nv": False, "transp": False, "maxq": 2},  # F29 witness (fixed)
@@ -155,7 +166,8 @@ def run(ctx):
         except for a non-sequential context block of several pairs on multi-comm hardware (the
         pairs have different destination ids, so all of them may arrive before the first body)"""
         single = cfg["nv"] or cfg["transp"] or cfg["maxq"] == 1
-        return not any(o["k"] == "ctx" and not o["sequential"] and o["n"] >= 2 and not single for o in ops)
+        return not any(o["k"] in ("ctx", "postk") and not o.get("sequential", False) and o["n"] >= 2 and not single
+                       for o in ops)
 
     def compare(cfg, ops, stream, schedule="lazy"):
         real, notes = H.run_real(cfg, ops, schedule=schedule)
